@@ -28,6 +28,13 @@ pub fn check_all(h: &Hist, out: &Outcome, props: &[&str]) -> OracleOut {
         o.nontrivial = true;
         return o;
     }
+    if h.plan.has_tag("wall_step") {
+        // two clocks (wall and monotonic): the reference models assume one; only the engine
+        // rules and the dedicated rules below judge these plans
+        wall_step_rules(h, props, &mut o);
+        o.nontrivial = true;
+        return o;
+    }
     if props.iter().any(|p| ["C03", "C04", "C05", "C09"].contains(p)) {
         let mut want: Vec<&str> = props.to_vec();
         if props.contains(&"C09") {
@@ -102,6 +109,105 @@ fn huge_ttl_rules(h: &Hist, o: &mut OracleOut) {
                     if *code >= u64::MAX - 3 && h.quiescent_between(*ws, op.inv_seq).is_some() && t.map_or(true, |x| x < 500 * 365 * 86400 * 1_000_000_000) {
                         o.violations.push(violk("C03", "R-huge-ttl-not-reported", op.ret_seq.unwrap(), *k, "get_ttl does not report the remaining time of an entry with a TTL beyond any reachable deadline", format!("get_ttl({}) returned {:?}", k, t)));
                     }
+                }
+            }
+            _ => {}
+        }
+    }
+}
+
+/// C03/C04 when the wall clock is stepped back (one client, roomy cache, lockstep).  `wall` is
+/// what `SystemTime::now()` read at an instant: monotonic time plus the skew accumulated so
+/// far.  For the last accepted write of a key (creation instant within [w_lo, w_hi] on the wall
+/// clock, TTL d):
+///  - the entry must be served as long as the wall clock has never, since the write, shown a
+///    value at or past creation + d (no reading of the clock says the TTL has elapsed; the
+///    sweep works from the same clock), and always if it has no TTL;
+///  - it must not be served once the wall clock shows creation + d or more;
+///  - get_ttl reports d minus the (non-negative) elapsed wall time, never more than d.
+fn wall_step_rules(h: &Hist, props: &[&str], o: &mut OracleOut) {
+    struct W {
+        val: Val,
+        d: u64,
+        w_lo: i128,
+        w_hi: i128,
+        ret_seq: u64,
+        max_wall: i128,
+    }
+    let labels: Vec<&str> = ["C03", "C04"].into_iter().filter(|p| props.contains(p)).collect();
+    if labels.is_empty() {
+        return;
+    }
+    let mut skew: i128 = 0;
+    let mut cur: BTreeMap<u64, W> = BTreeMap::new();
+    // a write issued before the previous write of its key was applied may legitimately be
+    // dropped (the policy already lists the key): only writes separated by a quiescent point count
+    let mut last_write: BTreeMap<u64, u64> = BTreeMap::new();
+    for op in h.ops.iter().filter(|x| x.client == 0) {
+        let wi = op.inv_now as i128 + skew;
+        for w in cur.values_mut() {
+            w.max_wall = w.max_wall.max(wi);
+        }
+        if !op.returned() {
+            break;
+        }
+        if let Op::WallStepBack { ns } = op.op {
+            skew -= ns as i128;
+            continue;
+        }
+        let wr = op.ret_now as i128 + skew;
+        for w in cur.values_mut() {
+            w.max_wall = w.max_wall.max(wr);
+        }
+        match (&op.op, op.res.as_ref().unwrap()) {
+            (Op::Insert { k, ttl_ns, .. }, r) => {
+                let clean = last_write.get(k).map_or(true, |p| h.quiescent_between(*p, op.inv_seq).is_some());
+                last_write.insert(*k, op.ret_seq.unwrap());
+                if clean && matches!(r, Res::Bool(true)) {
+                    cur.insert(*k, W { val: op.val.unwrap(), d: *ttl_ns, w_lo: wi, w_hi: wr, ret_seq: op.ret_seq.unwrap(), max_wall: wr });
+                } else {
+                    cur.remove(k);
+                }
+            }
+            (Op::Remove { k }, _) => {
+                last_write.insert(*k, op.ret_seq.unwrap());
+                cur.remove(k);
+            }
+            (Op::Get { k, .. }, Res::Got(g)) => {
+                let Some(w) = cur.get(k) else { continue };
+                let settled = h.quiescent_between(w.ret_seq, op.inv_seq).is_some();
+                let never_due = w.d == 0 || w.max_wall < w.w_lo + w.d as i128;
+                let surely_due = w.d != 0 && wi >= w.w_hi + w.d as i128;
+                if settled && never_due && g.map(|x| x.0) != Some(w.val) {
+                    for p in &labels {
+                        o.violations.push(violk(p, "R-wall-step-entry-lost", op.ret_seq.unwrap(), *k, if w.d == 0 { "an entry without TTL is not served after the wall clock was stepped back" } else { "an entry whose TTL has not elapsed on any reading of the clock is not served after the wall clock was stepped back" }, format!("get({}) returned {:?}, expected {:?}; ttl {} ns, written at wall [{}, {}], highest wall reading since {}, now {}", k, g.map(|x| x.0), w.val, w.d, w.w_lo, w.w_hi, w.max_wall, wr)));
+                    }
+                }
+                if surely_due && g.is_some() && labels.contains(&"C03") {
+                    o.violations.push(violk("C03", "R-wall-step-served-after-expiry", op.ret_seq.unwrap(), *k, "an entry is served although its TTL has elapsed on the wall clock", format!("get({}) returned {:?}; ttl {} ns, written at wall [{}, {}], now [{}, {}]", k, g.map(|x| x.0), w.d, w.w_lo, w.w_hi, wi, wr)));
+                }
+            }
+            (Op::GetTtl { k }, Res::Ttl(t)) => {
+                let Some(w) = cur.get(k) else { continue };
+                if !labels.contains(&"C03") {
+                    continue;
+                }
+                let settled = h.quiescent_between(w.ret_seq, op.inv_seq).is_some();
+                let never_due = w.d == 0 || w.max_wall < w.w_lo + w.d as i128;
+                if !(settled && never_due) {
+                    continue;
+                }
+                let bad = match t {
+                    None => Some("reports no entry".to_string()),
+                    Some(x) if w.d == 0 => (*x < 500 * 365 * 86400 * 1_000_000_000).then(|| "reports an expiry for an entry without TTL".to_string()),
+                    Some(x) => {
+                        let hi = w.d as i128 - (wi - w.w_hi).max(0);
+                        let lo = w.d as i128 - (wr - w.w_lo).max(0);
+                        ((*x as i128) > hi || (*x as i128) < lo).then(|| format!("outside [{}, {}]", lo, hi))
+                    }
+                };
+                if let Some(b) = bad {
+                    o.violations.push(violk("C03", "R-wall-step-ttl-misreported", op.ret_seq.unwrap(), *k, "get_ttl misreports the remaining time after the wall clock was stepped back", format!("get_ttl({}) returned {:?}: {}; ttl {} ns, written at wall [{}, {}], now [{}, {}]", k, t, b, w.d, w.w_lo, w.w_hi, wi, wr)));
                 }
             }
             _ => {}
